@@ -159,7 +159,8 @@ CHECKS = {
             'DESIGN.md 4 C07'),
     'C09': ('Lean 4 theorems over a dictionary-level model of to_dict / initialize_from_dict + correspondence',
             'Kernel-checked theorems: str(datetime) is re-read as the same datetime by get_date (with and without '
-            'fractional seconds); loading the dictionary of a well-formed constraint set gives back the same '
+            'fractional seconds, naive or with a whole-minute UTC offset of either sign as written for timezone-aware '
+            'columns); loading the dictionary of a well-formed constraint set gives back the same '
             'constraints (every kind, precision-qualified and date-valued bounds, any names / strings), with no warning '
             'or error, and the reloaded set serialises to the identical dictionary for any number of cycles; the same '
             'constraint is held for every (field, kind), hence identical verdicts; entries of unknown kinds and # keys '
@@ -167,8 +168,8 @@ CHECKS = {
             'without any, and keeps the line structure. The model (from_dict, to_dict, get_date, strip_lines) is tied to '
             'the code by differential runs; valid UTF-8 JSON, text identity over write/load cycles through real files, '
             'the three entry points and verdict preservation on generated frames are the oracle.',
-            'Trusted: Lean kernel; json.dumps / json.loads are not modelled (contract loads(dumps x) = x). One known '
-            'finding (datetime.date bounds).',
+            'Trusted: Lean kernel; json.dumps / json.loads are not modelled (contract loads(dumps x) = x); UTC offsets '
+            'with seconds stay text in code and model.',
             'DESIGN.md 4 C09'),
     'C08': ('Lean 4 theorems over a model of the SQL text and the shared constraint model + model/implementation correspondence',
             'Kernel-checked theorems: (a) the SQL text built for SQLite - quoted column names, string literals and the '
